@@ -9,6 +9,8 @@ import (
 	"errors"
 	"fmt"
 	"net"
+	"strconv"
+	"strings"
 
 	_ "github.com/mattn/go-sqlite3"
 )
@@ -44,6 +46,11 @@ func loadRecords(db *sql.DB) (map[string]*Record, error) {
 		}
 		hwaddr, err := net.ParseMAC(mac)
 		if err != nil {
+			// net.ParseMAC only accepts 6, 8 and 20 byte addresses; DHCP clients
+			// may use any length from 0 to 16
+			hwaddr, err = parseHWAddr(mac)
+		}
+		if err != nil {
 			return nil, fmt.Errorf("malformed hardware address: %s", mac)
 		}
 		ipaddr := net.ParseIP(ip)
@@ -56,6 +63,29 @@ func loadRecords(db *sql.DB) (map[string]*Record, error) {
 		return nil, fmt.Errorf("failed lease database row scanning: %w", err)
 	}
 	return records, nil
+}
+
+// parseHWAddr is the inverse of net.HardwareAddr.String for addresses of any
+// length. A lone hex digit is accepted because the `string` column type has
+// numeric affinity: a one-byte address such as "07" is stored as a number and
+// read back as "7".
+func parseHWAddr(s string) (net.HardwareAddr, error) {
+	if s == "" {
+		return net.HardwareAddr{}, nil
+	}
+	parts := strings.Split(s, ":")
+	hwaddr := make(net.HardwareAddr, len(parts))
+	for i, part := range parts {
+		if len(part) == 0 || len(part) > 2 {
+			return nil, fmt.Errorf("malformed hardware address: %s", s)
+		}
+		b, err := strconv.ParseUint(part, 16, 8)
+		if err != nil {
+			return nil, fmt.Errorf("malformed hardware address: %s", s)
+		}
+		hwaddr[i] = byte(b)
+	}
+	return hwaddr, nil
 }
 
 // saveIPAddress writes out a lease to storage
